@@ -118,7 +118,7 @@ def events(res):
 def observe(res):
     """per host: what the run did to it, from the events alone"""
     n = len(res["case"]["hosts"])
-    H = [{"start": None, "cbeg": None, "cend": None, "connret": None, "hits": [], "lost": [], "got": [0, 0], "closed": [False, False],
+    H = [{"start": None, "cbeg": None, "cend": None, "connret": None, "hits": [], "lost": [], "stale": [], "got": [0, 0], "closed": [False, False],
           "stdout": b"", "stderr": b"", "reports": [], "timeout_at": None, "done_at": None, "connects": 0}
          for _ in range(n)]
     for k, now, th, ev in events(res):
@@ -126,6 +126,8 @@ def observe(res):
             H[int(ev[1][1:])]["start"] = now
         elif th == "G" and ev[0] == "kill" and ev[1].startswith("W"):
             H[int(ev[1][1:])]["hits" if ev[3] == "1" else "lost"].append(now)
+            if ev[3] == "1" and len(ev) > 4 and ev[4] == "reused-id":
+                H[int(ev[1][1:])]["stale"].append(now)
         elif th.startswith("W"):
             i = int(th[1:])
             if i >= n:
@@ -231,9 +233,16 @@ def offenders(res):
         interrupted = h["connret"] < 0 and any(h["cbeg"] <= t <= h["cend"] for t in h["hits"])
         total_bound += min(d, ct + WDOG_POLL) if (ct > 0 and kind != "hang") else (ct + WDOG_POLL if kind == "hang" else d)
         if interrupted:
-            if not may_to:
-                out.append(("healthy-host-interrupted", "%s: connect interrupted by the watchdog although it answers "
-                            "after %ds <= connect timeout %d" % (name, d, ct)))
+            if not may_to or h["cend"] <= h["start"] + ct:
+                # not overdue at all; was the SIGALRM meant for an earlier, finished worker whose thread id this
+                # worker inherited?
+                stale = [t for t in h["stale"] if h["cbeg"] <= t <= h["cend"]]
+                out.append(("healthy-host-interrupted" + (":stale-thread-id" if stale else ""),
+                            "%s: connect interrupted by the watchdog at %d although it started at %d, connect timeout "
+                            "%d%s" % (name, h["cend"], h["start"], ct,
+                                      " (pthread_kill used the id of a worker that had already finished; the id now "
+                                      "belongs to this worker)" if stale else "")))
+                continue
             if h["cend"] > h["start"] + ct + WDOG_POLL:
                 out.append(("connect-deadline", "%s still connecting at %d, started %d, connect timeout %d" %
                             (name, h["cend"], h["start"], ct)))
